@@ -14,6 +14,8 @@ def one(spec):
     except zoo.ZooError as e:
         return spec["name"], "BUILD-FAIL", str(e)[-600:]
     args = [b.tool("e2fsck"), "-fn"]
+    if spec.get("extjournal"):
+        args += ["-j", path + ".jnl"]
     r = run.run(args + [path], env=run.base_env(b), timeout=300)
     return spec["name"], r.rc, r.text[-600:] if r.rc else ""
 
